@@ -261,59 +261,66 @@ func stageSet(m map[uint8]common.Fixed64) arr {
 	return r
 }
 
-// specState normalises the state record logged by the spec to the shape of
-// Project (spec-only bookkeeping dropped, orders as sorted pairs).
+// specState decodes the positional state record logged by the spec (Compact in
+// CR.tla) into the shape of Project.
 func specState(st map[string]interface{}) obj {
-	r := obj{}
-	for k, v := range st {
-		switch k {
-		case "nv", "wid", "paid", "cover":
-		case "dep": // total (deposited amount) is spec bookkeeping for the ReturnDeposit guard: penalties are not modelled
-			ds := arr{}
-			for _, d := range v.([]interface{}) {
-				m := d.(map[string]interface{})
-				ds = append(ds, obj{"known": m["known"], "locked": m["locked"]})
-			}
-			r[k] = ds
-		case "pend":
-			var pend []string
-			for _, o := range v.([]interface{}) {
-				m := o.(map[string]interface{})
-				pend = append(pend, fmt.Sprintf("%d:%d", int(m["p"].(float64)), int(m["amt"].(float64))))
-			}
-			sort.Strings(pend)
-			pa := arr{}
-			for _, s := range pend {
-				pa = append(pa, s)
-			}
-			r[k] = pa
-		case "prop":
-			ps := arr{}
-			for _, p := range v.([]interface{}) {
-				q := obj{}
-				for kk, vv := range p.(map[string]interface{}) {
-					if kk == "wable" || kk == "wdrawn" {
-						var xs []int
-						for _, x := range vv.([]interface{}) {
-							xs = append(xs, int(x.(float64)))
-						}
-						sort.Ints(xs)
-						a := arr{}
-						for _, x := range xs {
-							a = append(a, x)
-						}
-						q[kk] = a
-					} else {
-						q[kk] = vv
-					}
+	named := func(v interface{}, names ...string) arr {
+		out := arr{}
+		for _, row := range v.([]interface{}) {
+			cols := row.([]interface{})
+			o := obj{}
+			for i, n := range names {
+				if i < len(cols) {
+					o[n] = cols[i]
 				}
-				ps = append(ps, q)
 			}
-			r[k] = ps
-		default:
-			r[k] = v
+			out = append(out, o)
 		}
+		return out
 	}
+	sortedInts := func(v interface{}) arr {
+		var xs []int
+		for _, x := range v.([]interface{}) {
+			xs = append(xs, int(x.(float64)))
+		}
+		sort.Ints(xs)
+		a := arr{}
+		for _, x := range xs {
+			a = append(a, x)
+		}
+		return a
+	}
+	r := obj{"h": st["h"], "hmem": st["hmem"], "hcand": st["hcand"], "uCR": st["uCR"], "uImp": st["uImp"], "uRej": st["uRej"]}
+	r["cand"] = named(st["cand"], "st", "votes", "regH", "cancelH", "nick")
+	r["dep"] = named(st["dep"], "known", "locked")
+	r["mem"] = named(st["mem"], "st", "imp", "key", "pbc")
+	r["next"] = named(st["next"], "in", "key")
+	per := st["per"].([]interface{})
+	for i, n := range []string{"lch", "lvsh", "inElect", "session", "needApp"} {
+		r[n] = per[i]
+	}
+	fund := st["fund"].([]interface{})
+	for i, n := range []string{"fbal", "cbal", "used", "stage", "approp", "usedSnap"} {
+		r[n] = fund[i]
+	}
+	props := named(st["prop"], "st", "kind", "target", "bud", "bst", "wable", "wdrawn", "owner", "sponsor", "crv", "rej",
+		"regH", "vsH", "tcount", "fps", "termH", "sess")
+	for _, p := range props {
+		q := p.(obj)
+		q["wable"], q["wdrawn"] = sortedInts(q["wable"]), sortedInts(q["wdrawn"])
+	}
+	r["prop"] = props
+	var pend []string
+	for _, o := range st["pend"].([]interface{}) {
+		t := o.([]interface{})
+		pend = append(pend, fmt.Sprintf("%d:%d", int(t[1].(float64)), int(t[2].(float64))))
+	}
+	sort.Strings(pend)
+	pa := arr{}
+	for _, s := range pend {
+		pa = append(pa, s)
+	}
+	r["pend"] = pa
 	return r
 }
 
